@@ -18,6 +18,7 @@ type c01Obs struct {
 	Quiescent bool         `json:"-"` // last round changed no object (all resourceVersions equal); monitor only
 	Taken     int          `json:"-"` // taken candidates the name generator drew (class only)
 	Stale     int          `json:"-"` // rounds whose first read of the XR was outdated (class only)
+	NS        int          `json:"-"` // rounds run with namespaced desired resources (class only)
 }
 
 // "e" is of kind KA2: the same Kind name as KA, served by another API group
@@ -129,6 +130,40 @@ func c01Gen(r *Rng) xwScn {
 // generator gives up after maxTries = 10 probes).
 func c01GenX(r *Rng) c01Scn {
 	s := c01Scn{xwScn: c01Gen(r)}
+	if s.Mode == "fn" && r.Chance(1, 5) {
+		// namespaced composed resources: per desired resource name a home namespace; in every
+		// round the function emits the same namespace, ANOTHER one, or none for it (an existing
+		// resource keeps the namespace it was created in, whatever the function says). No cache
+		// misses / scripted candidates in this family (they are selected by unqualified name).
+		home := map[string]string{}
+		for _, n := range c01RNames {
+			home[n] = Pick(r, []string{"team-a", "team-a", "team-b", ""})
+		}
+		s.NS = make([]map[string]string, len(s.Rounds))
+		for i := range s.Rounds {
+			s.Rounds[i].MissSel = nil
+			if i >= len(s.Rounds)-3 && i > 0 {
+				s.NS[i] = s.NS[i-1] // the steady state keeps the last output
+				continue
+			}
+			m := map[string]string{}
+			for _, d := range s.Rounds[i].Desired {
+				switch r.Intn(4) {
+				case 0:
+					m[d.RName] = Pick(r, []string{"team-b", "team-c"})
+				case 1:
+					// none
+				default:
+					m[d.RName] = home[d.RName]
+				}
+				if m[d.RName] == "" {
+					delete(m, d.RName)
+				}
+			}
+			s.NS[i] = m
+		}
+		return s
+	}
 	if s.Mode == "pt" && r.Chance(1, 2) {
 		// lagging first read of the XR in some of the rounds before the trailing fault-free ones
 		s.StaleSel = make([]bool, len(s.Rounds))
@@ -218,6 +253,14 @@ func c01RunX(s *c01Scn) (c01Obs, []Mon) {
 			plan = s.Collide[i]
 		}
 		nm.startRound(plan)
+		nm.ns = nil
+		var extra func()
+		if s.Mode == "fn" && len(s.NS) > 0 {
+			if i < len(s.NS) {
+				nm.ns = s.NS[i]
+			}
+			extra = func() { c01CheckInstantNS(w) }
+		}
 		// a lagging first read of the XR (P&T): the version of the previous round's start, when it
 		// differs in finalizers or references
 		curXR := w.St.Peek(xwXRGVK.GroupKind(), "", xwXRName).DeepCopy()
@@ -231,10 +274,22 @@ func c01RunX(s *c01Scn) (c01Obs, []Mon) {
 			}
 		}
 		prevXR = curXR
-		obs.Rounds = append(obs.Rounds, w.xwRunRound(s.Mode, rd, nil))
+		ro := w.xwRunRound(s.Mode, rd, extra)
+		if extra != nil {
+			c01QualifyRound(w, nm, nm.ns, &ro)
+		}
+		obs.Rounds = append(obs.Rounds, ro)
 		nm.staleXR = nil
 		// every candidate the generator drew, with the resource it was drawn for
 		rd.Hints.Gen = nm.rec
+		if extra != nil {
+			q := [][2]string{}
+			for _, p := range nm.rec {
+				q = append(q, [2]string{p[0], c01Qual(nm.ns[p[0]], p[1])})
+			}
+			rd.Hints.Gen = q
+			obs.NS++
+		}
 		obs.Taken += nm.taken
 		created = created[:0]
 		_, objs1, _ := w.view()
@@ -284,6 +339,9 @@ func c01Cls(s *xwScn, o c01Obs) string {
 	}
 	if o.Stale > 0 {
 		c += "/staleXR"
+	}
+	if o.NS > 0 {
+		c += "/ns"
 	}
 	return c
 }
